@@ -58,8 +58,9 @@ def describe(L, o, depth=0):
         d = getattr(o, '__dict__', {})
         extra = []
         for name in ('focal_length', 'x', 'y', 'trace', 'dispersion', 'angle', 'order', 'axis'):
-            if name in d:
-                extra.append((name, describe(L, d[name], depth + 1)))
+            # public attributes of the subclasses, however they are stored (instance dict or property)
+            if name in d or isinstance(getattr(type(o), name, None), property):
+                extra.append((name, describe(L, getattr(o, name), depth + 1)))
         return ('Plane', cls, _arr(o.amplitude), _arr(o.opd), _arr(o.mask),
                 None if o.pixelscale is None else _arr(np.asarray(o.pixelscale, dtype=float)),
                 str(o.ptype), None if d.get('_diameter') is None else float(d['_diameter']),
@@ -70,8 +71,10 @@ def describe(L, o, depth=0):
     if isinstance(o, R.Spectrum):
         return ('Spectrum', _arr(o.wave), _arr(o.value), str(o.waveunit), None if o.valueunit is None else str(o.valueunit))
     if isinstance(o, R.Material):
-        return ('Material', describe(L, o._transmission, depth + 1), describe(L, o._emission, depth + 1),
-                describe(L, o.contam, depth + 1))
+        # public state: transmission and emission as a caller reads them (contamination factor applied), and the factor
+        if not isinstance(o.contam, (int, float)) or not o.contam:
+            raise Unsupported('Material with contam %r' % (o.contam,))
+        return ('Material', describe(L, o.transmission, depth + 1), describe(L, o.emission, depth + 1), float(o.contam))
     if isinstance(o, BaseException):
         return ('exc', type(o).__name__)
     raise Unsupported(type(o).__name__)
@@ -141,7 +144,8 @@ def build(L, d):
         return L.radiometry.Spectrum(np.array(wave, copy=True), np.array(value, copy=True), waveunit=wu, valueunit=vu)
     if kind == 'Material':
         _, tr, em, contam = d
-        return L.radiometry.Material(transmission=build(L, tr), emission=build(L, em), contam=build(L, contam))
+        # the constructor takes the values before the contamination factor is applied
+        return L.radiometry.Material(transmission=build(L, tr) / contam, emission=build(L, em) / contam, contam=contam)
     raise Unsupported(str(kind))
 
 
